@@ -31,6 +31,13 @@ CLAIMS['C04'] = ('proof', 'Lean 4 refinement theorem (induction over operation h
     'scratch/destination of a transpose nor overwritten (step_refines, init_related, history_behaves_like_global_array). The model is compared after every '
     'operation with real Grid objects over LayoutHandler and over the driver\'s LayoutSwapper on 1-6 simulated ranks (refusal, currentLayout, index triple, '
     'notSaved, visible field).', NOTE_COMMON + ' The transpose contract (C01/C03) enters as the meaning of LayoutManager.transpose.', 'DESIGN.md 4/C04')
+CLAIMS['C03'] = ('proof', 'Lean 4 theorems (abstract gather/scatter steps, constructor decision logic for the simulation grouping for all P0,P1, soundness of the repaired compatibility test) + exact correspondence of an executable LayoutSwapper model with the real code on simulated ranks',
+    'gather_correct (Allgather of padded blocks + unpack => every member holds the field, replicas identical), scatter_correct, driver_comm_axes (for EVERY P0,P1>=1 '
+    'the driver grouping gets communicators [0,1],[0],[1], equal extents and 1 included), compatible_sound_equal_axes (repaired code) and the kernel-evaluated witness '
+    'compatible_unsound_equal_axes of the defect repaired by the fix: commit; chains of steps are covered by C01.route_transpose_correct_* (stated over an arbitrary step). '
+    'The executable model (constructor, communicator choice, _compatibleLayout, getAxes, bufferSize, equal/scatter/gather steps, redirects) is compared exactly with the real '
+    'LayoutSwapper on random groupings and walks: constructor outcome, buffer sizes, route map, every destination block after every step, source intactness.',
+    NOTE_COMMON, 'DESIGN.md 4/C03')
 PENDING = {
 }
 ALL = ['C%02d' % i for i in range(1, 21)]
